@@ -197,7 +197,14 @@ def run_shard(ctx):
   chunks = [stmts[i:i + per] for i in range(0, len(stmts), per)]
   if ctx.quick():
     # stratified: every 12th statement (the grid order interleaves kinds)
-    sel = stmts[ctx.seed % 12::12]
+    # the advertised core completely, the rest stratified
+    core = [x for x in stmts if (
+        (x[0][:3] == "bin" and x[0][3:] in ADVERTISED_BINOPS or
+         x[0] == "subscr") and all(o in BUILTIN_VALUES for o in x[2])) or
+            (x[0] in ("un-", "call0") and x[2][0] in BUILTIN_VALUES)]
+    core_set = {x[1] for x in core}
+    rest = [x for x in stmts if x[1] not in core_set]
+    sel = core + rest[ctx.seed % 12::12]
     chunks = [sel[i:i + per] for i in range(0, len(sel), per)]
   for i, ch in enumerate(chunks):
     if i % ctx.nshards == ctx.shard:
